@@ -8,10 +8,10 @@
   / `GetRes.panic`.  The `dirty` result of insert/delete is kept (it decides whether the old node
   is returned unchanged).
 
-  What is NOT modelled (tied by the correspondence run `hx c17` and the direct oracle only):
-  hash nodes and their resolution from the `TrieDatabase`, the node flags / cache generations,
-  `Commit`, and the hasher (RLP + Keccak; the root hash is a function of the resolved structure).
-  In the model `commit`, `reopen` and cache eviction are the identity on the structure.
+  What is NOT modelled HERE: hash nodes and their resolution from the `TrieDatabase`, the node flags /
+  cache generations, `Commit`, and the hasher — see `LemoModel.MptStore` (partially resolved trie over
+  a node store, abstract `hashOf` / `small`), which `LemoProofs.C17Store` proves to simulate this
+  resolved model (commit, re-open by root and cache eviction are the identity on the structure).
 -/
 namespace LemoModel.Mpt
 
